@@ -504,7 +504,7 @@ pub fn run(ctx: &Ctx) -> (Report, Meta) {
     let mut rep = run_cases(ctx, ctx.tier.pick(24, 800), &scan_history);
     let mut c2 = ctx.clone();
     c2.seed ^= 0xc4b;
-    rep.merge(run_cases(&c2, ctx.tier.pick(16, 64), &|c, i, r, rep| crypto_case(c, i + 100_000, r, rep, ctx.tier.pick(1500, 20_000))));
+    rep.merge({ let mut cb = c2.clone(); cb.case_base = 100_000; run_cases(&cb, ctx.tier.pick(16, 64), &|c, i, r, rep| crypto_case(c, i + 100_000, r, rep, ctx.tier.pick(1500, 20_000))) });
     // tamper matrix
     let mut targets: Vec<Arc<TamperTarget>> = Vec::new();
     for i in 0..ctx.tier.pick(4u64, 40) {
@@ -523,6 +523,7 @@ pub fn run(ctx: &Ctx) -> (Report, Meta) {
     rep.count("tamper_faults_enumerated", jobs.len() as u64);
     let mut c3 = ctx.clone();
     c3.seed ^= 0x7a3;
+    c3.case_base = 200_000;
     let res = run_cases(&c3, jobs.len() as u64, &|_c, i, r, rep| {
         let (ti, fi) = jobs[i as usize];
         let t = &targets[ti];
@@ -541,7 +542,7 @@ pub fn run(ctx: &Ctx) -> (Report, Meta) {
     // keys (scrypt at recommended parameters: ~0.1-0.3 s per derivation)
     let mut c4 = ctx.clone();
     c4.seed ^= 0x6e7;
-    rep.merge(run_cases(&c4, ctx.tier.pick(4, 60), &|c, i, r, rep| key_history(c, i + 300_000, r, rep)));
+    rep.merge({ let mut cb = c4.clone(); cb.case_base = 300_000; run_cases(&cb, ctx.tier.pick(4, 60), &|c, i, r, rep| key_history(c, i + 300_000, r, rep)) });
     let meta = Meta {
         level: "exploration",
         rule: "(a) storage scan after each step of backup/forget/prune/config histories with 16-byte random markers embedded in file contents (incl. a highly compressible file), names, link targets, tags, host name, label, description: no marker and no master-key bytes in any stored file, no non-key file parses as JSON / starts with a zstd frame, every file / blob region / pack trailer authenticates under the master key with the harness's own AES-CTR+Poly1305-AES; (b) all nonces of all stored messages of a history pairwise distinct, plus high-volume H2 runs (equal and random plaintexts of 0..70000 bytes): distinct nonces, independent decryption agrees, bit flip / truncation / extension / wrong key rejected, file and blob codecs round-trip; (c) tamper matrix = C05's file faults (remove, truncations, structural bit flips, extension, sibling replacement) with the oracle 'every read either fails or returns exactly the original content'; (d) key histories (add/delete/open with valid, removed, near-miss, empty passwords and right/wrong master key) against a set model, tampered key files. distinct_nontrivial = distinct class labels (scan config classes, crypto, tamper kinds, key traces)".to_string(),
